@@ -1,7 +1,11 @@
 #!/bin/sh
 # usage: run_seed.sh <patch.diff> <PROP>... : apply a seeded change to /repo, run the checks, undo it straight afterwards
+# (the evidence files the runs rewrite describe the changed tree: they are put back, so that what gets committed is the unchanged tree's)
 P=$1; shift
-git -C /repo apply "$P" || exit 9
-for prop in "$@"; do (cd /verif && ./check $prop 2>&1 | grep -v WARNING | grep -E "VIOLATION|UNDECIDED|KNOWN|discharged|SELF" | cut -c1-160; echo "exit($prop)=$?"); done
+B=$(mktemp -d /tmp/evidence_backup.XXXXXX)
+cp /verif/evidence/*.json "$B"/
+git -C /repo apply "$P" || { rm -rf "$B"; exit 9; }
+for prop in "$@"; do (cd /verif && ./check $prop 2>&1 | grep -v WARNING | grep -E "VIOLATION|UNDECIDED|KNOWN|discharged|SELF" | cut -c1-160); done
 git -C /repo checkout -- .
+cp "$B"/*.json /verif/evidence/; rm -rf "$B"
 git -C /repo status --short | head -3
